@@ -120,6 +120,10 @@ def run(ctx, args):
             if sres is None or sres.get("t") in ("ood",):
                 # outside the exact domain of the TLA+ engine: fall back on wasmtime, comparing in single precision
                 import struct
+                if vm.get("ret") is None and wres is None and j < len(wt["results"]):
+                    # a function without a result: the VM returns nothing and the engine returned nothing (no trap, the export exists)
+                    counts["void-agree"] = counts.get("void-agree", 0) + 1
+                    continue
                 if isinstance(wres, tuple) or wres is None:
                     ctx.violation("wasm-traps", f"{c['fn']}({c['args']}): the VM returns {vm['ret_repr']}, the module traps / has no such export ({wres})", case)
                     ok_here = False
